@@ -32,6 +32,9 @@ def build_inpkg(pkg, outdir, tags="verif"):
 def run_test(binpath, testname, env, cwd, timeout=600):
     e = dict(GOENV)
     e.update(env)
+    # everything the driver creates with os.MkdirTemp (scratch worlds, data directories) lives under the check's own
+    # scratch directory and goes away with it
+    e.setdefault("TMPDIR", cwd)
     p = subprocess.run([binpath, "-test.run", "^" + testname + "$", "-test.count=1", "-test.timeout", str(timeout) + "s"],
                        cwd=cwd, env=e, capture_output=True, text=True, timeout=timeout + 30)
     return p
